@@ -1,11 +1,54 @@
 """Shared registry content: contracts of Util.number / py3compat helpers that every area relies on."""
+import z3
 from vf.pyvc.contracts import Registry, Contract, ClassContract
+from vf.pyvc import contracts as _c, interp as _i
+from vf.pyvc.values import mk_bytes, mk_int, zint, INT, BYTES
+
+# ---- entropy model (DESIGN 2.3): the system source is a ghost tape; the k-th read of n bytes is sys_tape(k, n)
+SYS_TAPE = z3.Function('sys_tape', INT, INT, BYTES)
+
+
+def sys_read(E, st, args, kwargs):
+    n = args[0]
+    zn = zint(n)
+    outs = []
+    neg, ok = E.split(st, zn < 0)
+    if neg is not None:
+        outs.append(('raise', neg, _i.exc(ValueError, 'negative argument not allowed')))
+    if ok is not None:
+        cur = ok.ghost.get('sys_cursor', 0)
+        t = SYS_TAPE(zint(cur), zn)
+        ok.fact(z3.Length(t) == zn)
+        ok.ghost['sys_cursor'] = mk_int(zint(cur) + 1)
+        outs.append(('val', ok, mk_bytes(t)))
+    return outs
+
+
+def _sf_sys_tape(E, st, args, kw):
+    """spec form: sys_tape(k, n) = the bytes returned by the k-th read (of n bytes) from the system entropy source in this call"""
+    t = SYS_TAPE(zint(args[0]), zint(args[1]))
+    st.fact(z3.Length(t) == zint(args[1]))
+    return [('val', st, mk_bytes(t))]
+
+
+def _sf_sys_reads(E, st, args, kw):
+    """spec form: number of reads from the system entropy source so far"""
+    return [('val', st, st.ghost.get('sys_cursor', 0))]
+
+
+_c.SPEC_FORMS['sys_tape'] = _sf_sys_tape
+_c.SPEC_FORMS['sys_reads'] = _sf_sys_reads
+_i.SPEC_BUILTINS['sys_tape'] = _i.BuiltinV('spec.sys_tape', _sf_sys_tape)
+_i.SPEC_BUILTINS['sys_reads'] = _i.BuiltinV('spec.sys_reads', _sf_sys_reads)
 
 N = 'Crypto.Util.number.'
 
 
 def base_registry():
     reg = Registry()
+    rd = _i.BuiltinV('os.urandom', sys_read)
+    reg.overrides['os.urandom'] = rd
+    reg.overrides['Crypto.Random.get_random_bytes'] = rd
     # py3compat helpers (bord, bchr, tobytes, byte_string, _copy_bytes ...) are NOT modelled: their real source is inlined.
     reg.add(Contract(N + 'bytes_to_long', params={'s': 'bytes'}, returns='be(s)', pure=True,
                      assumed='bounded: bounded/number.py against int.from_bytes; proved separately where listed under C13'))
@@ -13,6 +56,7 @@ def base_registry():
                      raises={'ValueError': ('iff', 'n < 0 or blocksize < 0')}, result='bytes',
                      ensures={'value': 'be(result) == n',
                               'minimal': 'blocksize == 0 ==> (len(result) >= 1 and (n == 0 ==> result == bytes(1)) and (n > 0 ==> result[0] != 0))',
-                              'blocks': 'blocksize > 0 ==> (len(result) % blocksize == 0 and len(result) >= 1)'},
+                              'blocks': 'blocksize > 0 ==> (len(result) % blocksize == 0 and len(result) >= 1)',
+                              'one_block': '(blocksize > 0 and n < pow2(8 * blocksize)) ==> result == i2osp(n, blocksize)'},
                      pure=True, assumed='bounded: bounded/number.py against int.to_bytes'))
     return reg
